@@ -512,10 +512,10 @@ def main(chk):
     validate_translation(chk, prog)
     o1_language(chk, regexes)
 
-    lens = cmdref.quick_lengths() if not chk.thorough else list(range(0, 49))
+    lens = cmdref.quick_lengths() if not chk.thorough else list(range(0, 35))
     sb = 1000 if not chk.thorough else 100000
     tasks = [(prog, n, sb) for n in sorted(lens, reverse=True)]
-    digs = [1, 2, 18, 19, 20, 21] if not chk.thorough else list(range(1, 26))
+    digs = [1, 2, 18, 19, 20, 21] if not chk.thorough else list(range(1, 24))
     for d in digs:
         tasks.append((prog, 0, sb, ("SET SHARDING KEY TO ", d, "")))
         tasks.append((prog, 0, sb, ("set shard to '", d, "';")))
